@@ -336,7 +336,7 @@ Lemma order_of_steps_is_source : forall (XT : Type) (inv : qrow -> XT) U lb ub t
   (forall V, src_stage4 inv cons V = keep_feasible (violated_of inv cons) V) /\
   src_filter inv U lb ub tol_mesh X xmi proj cons
   = src_stage4 inv cons (src_stage3 tol_mesh X xmi (src_stage2 (src_stage1 U lb ub proj))) /\
-  src_stage_writes = ["if proj"; "assign"; "if U_new.size > 0"; "if non_box_cons is not None"]%string.
+  src_stage_writes = ["if proj"; "assign"; "if R.size > 0"; "if non_box_cons is not None"]%string.
 Proof.
   intros. destruct src_stages_are_model as [E1 [E2 [E3 E4]]]. rewrite E1, E2, E3, E4.
   split; [apply stage1_model|]. split; [apply stage2_model|]. split; [apply stage3_model|]. split; [apply stage4_model|].
